@@ -39,7 +39,37 @@ def compare_groupby(vec: Dict[str, Any], obs: Dict[str, Any]) -> Outcome:
     return oc
 
 
+TABLE = Slice(name="TableChecks", module="TableChecks",
+              cfg={"quick": "mc/MC_TableChecks_quick.cfg", "thorough": "mc/MC_TableChecks_thorough.cfg"},
+              observe=("vf.obs_tablechecks", "observe_tablecheck"), cap={"quick": 0, "thorough": 30000})
+
+
+def compare_table(vec: Dict[str, Any], obs: Dict[str, Any]) -> Outcome:
+    """dataframe-level checks (TableChecks.tla)"""
+    oc = Outcome()
+    exp = vec["expect"]
+    who = "dataframe-level check %s (answers with a %s) ignore_na=%s n_failure_cases=%s raise_warning=%s on x=%s y=%s" % (
+        vec["pred"], exp["out"], vec["ina"], vec["nfc"] or None, vec["warn"], vec["x"], vec["y"])
+    if "direct_error" in obs:
+        oc.mismatches.append("%s: Check(...)(df) raised %s" % (who, obs["direct_error"]))
+    elif obs["passed"] != exp["passed"]:
+        oc.mismatches.append("%s: check_passed=%s, specification %s" % (who, obs["passed"], exp["passed"]))
+    want = "ok" if (exp["passed"] or vec["warn"]) else None
+    for mode, err in (("eager", "SchemaError"), ("lazy", "SchemaErrors")):
+        w = want or err
+        if obs.get(mode) != w:
+            oc.mismatches.append("%s: DataFrameSchema.validate(lazy=%s) %s, specification %s" % (who, mode == "lazy", obs.get(mode), w))
+        elif w == "ok" and not obs.get(mode + "_same", True):
+            oc.mismatches.append("%s: validate returned a changed frame" % who)
+    if vec["warn"] and (obs.get("warned", 0) > 0) != (not exp["passed"]):
+        oc.mismatches.append("%s: warned=%s, specification: warn exactly when the check fails (%s)" % (who, obs.get("warned"), not exp["passed"]))
+    oc.sig = "table|%s|%s|%s|%s|%s|%d" % (vec["pred"], vec["ina"], vec["nfc"], vec["warn"], exp["passed"], len(vec["x"]))
+    return oc
+
+
 def compare(vec: Dict[str, Any], obs: Dict[str, Any]) -> Outcome:
+    if vec.get("kind") == "tablecheck":
+        return compare_table(vec, obs)
     if vec["kind"] == "check_groupby":
         return compare_groupby(vec, obs)
     oc = Outcome()
@@ -78,7 +108,7 @@ def compare(vec: Dict[str, Any], obs: Dict[str, Any]) -> Outcome:
 PROP = Prop(
     id="C19",
     title="Check options do only what they document",
-    slices=[sl("custom"), sl("builtin"),
+    slices=[TABLE, sl("custom"), sl("builtin"),
             Slice(name="Checks.groupby", module="MC_Checks",
                   cfg={"quick": "mc/MC_Checks_groupby_quick.cfg", "thorough": "mc/MC_Checks_groupby_thorough.cfg"},
                   observe=("vf.obs_checks", "observe_check_groupby"), cap={"quick": 3000, "thorough": 0})],
